@@ -285,3 +285,57 @@ Proof.
   - constructor; [left; reflexivity|constructor].
 Qed.
 End Enc.
+
+(* ---- the entry points ---- *)
+Theorem uts46_no_panic A cfg d deny hy dns p : C04_Uts46_Inner.AdapterNP A -> AdapterUSV A -> bytes d ->
+  (forall site, to_ascii A cfg d deny hy dns <> Panic site) /\
+  (Known_C11 A cfg d deny hy = false -> forall site, to_user_interface A cfg d deny hy p <> UIPanic site).
+Proof.
+  intros HN HU Hb. split.
+  - exact (to_ascii_no_panic A cfg HN d deny hy dns Hb (enc_ok_inner A cfg HU hy deny d)).
+  - intros HK. exact (to_ui_no_panic A cfg HN d deny hy p Hb (enc_ok_inner A cfg HU hy deny d) HK).
+Qed.
+
+Theorem uts46_process_no_panic A cfg ff p d deny hy w : C04_Uts46_Inner.AdapterNP A -> AdapterUSV A -> bytes d ->
+  (ff = false -> Known_C11 A cfg d deny hy = false) ->
+  status_fine (fst (fst (process A cfg ff p d deny hy None None w))).
+Proof. intros HN HU Hb HK. exact (process_no_panic A cfg HN ff p d deny hy w Hb (enc_ok_inner A cfg HU hy deny d) HK). Qed.
+
+(* a sanitising toy adapter: the toy adapter of Idna_Known with every non-scalar value and U+200F replaced by U+FFFD *)
+Definition san (c : N) : N := if is_usvb c && negb (c =? 8207) then c else FFFD.
+Definition toy_s : adapter :=
+  {| map_normalize := map san; normalize_validate := map san;
+     joining_type := fun _ => 0; bidi_class := toy_bc;
+     is_mark := fun _ => false; is_virama := fun _ => false |}.
+Lemma san_ok c : is_usv (san c) /\ C04_Uts46_Inner.okc (san c).
+Proof.
+  unfold san. destruct (is_usvb c && negb (c =? 8207)) eqn:E.
+  - apply andb_true_iff in E. destruct E as [E1 E2]. apply is_usvb_spec in E1. split; [exact E1|].
+    unfold C04_Uts46_Inner.okc, U32_MOD. unfold is_usv in E1. lia.
+  - split; [exact usv_fffd|exact C04_Uts46_Inner.okc_fffd].
+Qed.
+Lemma toy_s_usv : AdapterUSV toy_s.
+Proof. split; intros l; cbn [toy_s map_normalize normalize_validate]; apply Forall_forall; intros x Hx; apply in_map_iff in Hx; destruct Hx as (c & <- & _); exact (proj1 (san_ok c)). Qed.
+Lemma toy_s_np : C04_Uts46_Inner.AdapterNP toy_s.
+Proof. split; intros l; cbn [toy_s map_normalize normalize_validate]; apply Forall_forall; intros x Hx; apply in_map_iff in Hx; destruct Hx as (c & <- & _); exact (proj2 (san_ok c)). Qed.
+
+(* the premise AdapterOK of the statement C04_no_panic_uts46_statement (Properties/C04.v) is NOT enough: the adapter
+   that lower-cases ASCII letters and is the identity otherwise meets every field of AdapterOK, and the input U+200F
+   fails debug_assert_ne!(c, RLM) in is_bidi (uts46.rs:1650) *)
+Definition lowid : adapter :=
+  {| map_normalize := map to_lower; normalize_validate := fun l => l;
+     joining_type := fun _ => 0; bidi_class := toy_bc;
+     is_mark := fun _ => false; is_virama := fun _ => false |}.
+Lemma lowid_ok : AdapterOK lowid.
+Proof.
+  split; cbn [lowid map_normalize normalize_validate].
+  - reflexivity.
+  - intros l _. reflexivity.
+  - intros l l' H. exact H.
+  - intros l _ piece _. reflexivity.
+  - intros l H1 H2. rewrite H1 in H2. discriminate.
+Qed.
+Lemma lowid_panics :
+  Known_C11 lowid true [226; 128; 143] DENY_EMPTY HAllow = false /\
+  to_ascii lowid true [226; 128; 143] DENY_EMPTY HAllow DIgnore = Panic 1650.
+Proof. vm_compute. split; reflexivity. Qed.
